@@ -16,6 +16,10 @@ PROP_MODULE = "GomlVerif.Props.Dce"
 SCOPE_CODES = ("unused-variable", "unused-import", "undeclared", "redeclared", "expression-statement-not-a-call")
 
 
+def esc(s):
+    return s.replace("\\", "\\\\").replace("\n", "\\n").replace("\t", "\\t").replace("\r", "\\r")
+
+
 def _model_chunk(lines):
     p = subprocess.run(["bash", "-c", f"ulimit -s unlimited; exec {vlib.MODEL} dce"], input="\n".join(lines) + "\n",
                        stdout=subprocess.PIPE, stderr=subprocess.PIPE, text=True, timeout=3000)
@@ -71,7 +75,22 @@ def sem_kind(a, b):
 
 
 def evaluate(ctx):
-    ok, _ = ctx.gv("dce")
+    extra = ()
+    if ctx.replay:
+        # re-run the inputs recorded in a replay file through the real DCE and all oracles
+        import json
+        rp = json.load(open(ctx.replay))
+        path = os.path.join(ctx.run_dir, "dce.replay.tsv")
+        with open(path, "w") as f:
+            recompile = rp.get("signature", {}).get("oracle") == "go-rules-compiled-output"
+            for c in rp.get("cases", []):
+                if recompile and c.get("src"):
+                    # the finding is about what the compiler emits: compile the source again
+                    f.write(f"{c['id'].split('|')[0]}\tSRC\t{esc(c['src'])}\n")
+                elif c.get("input"):
+                    f.write(f"{c['id']}\treplay\t{c['input']}\n")
+        extra = ("replay", path)
+    ok, _ = ctx.gv("dce", extra)
     rows = vlib.read_tsv(os.path.join(ctx.run_dir, "dce.cases.tsv")) if ok else []
     srcs, cases, found = {}, {}, []
     streams, tags = {}, {}
@@ -82,8 +101,9 @@ def evaluate(ctx):
             cases[r[0]] = {"stream": r[2], "tags": r[3], "in": r[4], "out": r[5]}
             streams[r[2]] = streams.get(r[2], 0) + 1
             for t in r[3].split():
-                k, v = t.split("=")
-                tags[k] = tags.get(k, 0) + int(v)
+                if "=" in t:
+                    k, v = t.split("=")
+                    tags[k] = tags.get(k, 0) + int(v)
         elif r[1] == "FAIL":
             why = vlib.unesc(r[5])
             if why.startswith("panic"):
@@ -111,7 +131,7 @@ def evaluate(ctx):
         n["cases"] += 1
         tie, rin, rout, gin, gout, sin, sout = r[0], parse_report(r[1]), parse_report(r[2]), gc_codes(r[3]), gc_codes(r[4]), parse_sem(r[5]), parse_sem(r[6])
         base = cid.split("|")[0]
-        payload = {"id": cid, "stream": c["stream"], "tags": c["tags"], "src": srcs.get(base), "input": c["in"][:6000], "output": c["out"][:6000]}
+        payload = {"id": cid, "stream": c["stream"], "tags": c["tags"], "src": srcs.get(base), "input": c["in"], "output": c["out"][:6000]}
         distinct.add(hash(c["in"]))
         if tie == "EQ":
             n["tie_eq"] += 1
@@ -122,6 +142,15 @@ def evaluate(ctx):
             n["refeed_unchanged"] += c["in"] == c["out"]
         status_in[sin[0].split(":")[0]] = status_in.get(sin[0].split(":")[0], 0) + 1
 
+        # ---- the compiler's own output (the re-fed input is what go_file emitted, DCE included)
+        if c["stream"] == "refeed":
+            for kind, errs in (("unused-variable", rin.get("unused", [])),
+                               ("value-in-statement-context", rin.get("stmtctx", [])),
+                               ("unused-import", rin.get("imports", []))):
+                if errs:
+                    found.append(({"oracle": "go-rules-compiled-output", "kind": kind},
+                                  f"the Go the compiler emits breaks a rule DCE exists for: {kind} ({errs[0]})",
+                                  dict(payload, errors=errs[:5])))
         # ---- Go's rules for locals / imports / statement context on the REAL output
         in_scope_clean = not rin.get("scope") and not gin.get("undeclared") and not gin.get("redeclared")
         if in_scope_clean:
